@@ -54,10 +54,10 @@ func faultSchedule(rt *rapid.T, exec func(failAt int) (pools.Factory, result, st
 
 func TestPropFaultDistSession(t *testing.T) {
 	vstat.Checks(200, 4000)
-	kinds := []pools.Kind{pools.OpAlloc, pools.OpRelease, pools.OpReload}
+	kinds := []pools.Kind{pools.OpAlloc, pools.OpRelease, pools.OpReload, pools.OpAllocAlt}
 	rapid.Check(t, func(rt *rapid.T) {
 		g := pools.GenGeom(true, false).Draw(rt, "geometry")
-		ops := pools.GenOps(kinds, []int{8, 4, 1}, len(subs), 1, 14).Draw(rt, "ops")
+		ops := pools.GenOps(kinds, []int{5, 4, 1, 4}, len(subs), 1, 14).Draw(rt, "ops")
 		faultSchedule(rt, func(failAt int) (pools.Factory, result, string) {
 			f := pools.DistFactory(g.CIDR, g.Unit, false, 0, false, g.Class, nil)
 			return f, runHistory(rt, f, ops, runOpt{checkStats: true, failAt: failAt}), ""
@@ -67,10 +67,10 @@ func TestPropFaultDistSession(t *testing.T) {
 
 func TestPropFaultDistLease(t *testing.T) {
 	vstat.Checks(300, 6000)
-	kinds := []pools.Kind{pools.OpAlloc, pools.OpRelease, pools.OpRenew, pools.OpAdvance}
+	kinds := []pools.Kind{pools.OpAlloc, pools.OpRelease, pools.OpRenew, pools.OpAdvance, pools.OpAllocAlt}
 	rapid.Check(t, func(rt *rapid.T) {
 		cidr := pools.GenEpochNet(false).Draw(rt, "net")
-		w := []int{8, 3, 4, 3}
+		w := []int{5, 3, 4, 3, 4}
 		if vstat.IsListed("C05/dist-lease/stats-mismatch/after-advance") {
 			w[3] = 1 // every history with a 2nd advance ends at the listed ghost-slot finding
 		}
@@ -92,7 +92,7 @@ func TestPropFaultPoolAlloc(t *testing.T) {
 	vstat.Checks(300, 6000)
 	rapid.Check(t, func(rt *rapid.T) {
 		g := pools.GenGeom(true, false).Draw(rt, "geometry")
-		ops := pools.GenOps(baseKinds, []int{2, 1}, len(subs), 1, 14).Draw(rt, "ops")
+		ops := pools.GenOps(altKinds, []int{3, 3, 3}, len(subs), 1, 14).Draw(rt, "ops")
 		faultSchedule(rt, func(failAt int) (pools.Factory, result, string) {
 			f := pools.PoolAllocFactory(g.CIDR, g.Unit, g.Class, true)
 			return f, runHistory(rt, f, ops, runOpt{checkStats: true, failAt: failAt}), ""
